@@ -25,6 +25,10 @@ func c08NumCases(env *core.Env) int {
 }
 
 func c08World(env *core.Env, idx int) *gen.World {
+	if idx%400 == 3 {
+		// chains whose consecutive hops carry the same relative text in different directories: every hop is a document the loader may refuse
+		return sameTextChainWorld(idx / 400)
+	}
 	rng := core.Rng(env.Seed, "C08", idx)
 	o := gen.WorldOpts{}
 	o.NDocs = 1 + rng.Intn(5)
